@@ -67,6 +67,7 @@ type sessPipe struct {
 	corruptAt int // stream offset of first corrupted byte, -1 = none
 	mask      []byte
 	closed    bool
+	capacity  int  // >0: Write blocks while more than capacity bytes are unread (a slow peer)
 	waiting   bool // the reader is blocked on an empty pipe
 	lastMove  time.Time
 }
@@ -80,6 +81,9 @@ func newSessPipe() *sessPipe {
 func (p *sessPipe) Write(b []byte) (int, error) {
 	p.mu.Lock()
 	defer p.mu.Unlock()
+	for p.capacity > 0 && len(p.buf)-p.rd > p.capacity && !p.closed {
+		p.cond.Wait()
+	}
 	if p.closed {
 		return 0, fmt.Errorf("harness: transport closed")
 	}
@@ -132,6 +136,9 @@ func (p *sessPipe) Read(b []byte) (int, error) {
 	copy(b, p.buf[p.rd:p.rd+n])
 	p.rd += n
 	p.lastMove = time.Now()
+	if p.capacity > 0 {
+		p.cond.Broadcast()
+	}
 	return n, nil
 }
 
@@ -216,6 +223,7 @@ type sessOpts struct {
 	corruptAt int  // -1 none
 	mask      []byte
 	timeout   time.Duration
+	capacity  int
 }
 
 type sessResult struct {
@@ -270,6 +278,7 @@ func runSession(o sessOpts, gfun func(*env.Config, *p2p.Conn, ot.OT) ([]*big.Int
 	efun func(*p2p.Conn, ot.OT) ([]*big.Int, error)) *sessResult {
 	ge, eg := newSessPipe(), newSessPipe()
 	ge.record, eg.record = o.record, o.record
+	ge.capacity, eg.capacity = o.capacity, o.capacity
 	if o.fragment != nil {
 		ge.rng = rand.New(rand.NewSource(o.fragment.Int63()))
 		eg.rng = rand.New(rand.NewSource(o.fragment.Int63()))
